@@ -25,6 +25,7 @@ import radical.pilot.agent.executing.base  as ebase
 import radical.pilot.agent.executing.popen as epopen
 import radical.pilot.agent.executing.noop  as enoop
 import radical.pilot.agent.launch_method.base as lm_base
+import radical.pilot.agent.launch_method.srun as lm_srun
 
 _CTX = {'sim': None}
 
@@ -168,6 +169,7 @@ class FakeProc(object):
         self.polls = 0
         self.spawner = sim.baton.current()
         self.exit_step = None
+        self.child_alive = bool((sim.tasks.get(uid) or {}).get('stubborn'))
         sim.procs.append(self)
         sim.proc_of[uid] = self
 
@@ -233,6 +235,26 @@ class _KillOS(object):
         if self.sim is None:
             return os.killpg(pid, sig)
         self.sim.baton.yield_point('kill')
+        import signal as _sig
+        for p in self.sim.procs:
+            if p.pid == pid:
+                if getattr(p, 'reaped', False) and not p.child_alive:
+                    raise ProcessLookupError(3, 'No such process')
+                # the group: the launch process and (for some tasks) a member which handles
+                # SIGINT / SIGTERM itself and only goes away on SIGKILL
+                if int(sig) == int(_sig.SIGKILL):
+                    p.child_alive = False
+                if p.returncode is None:
+                    p.killed = True
+                    p.returncode = -int(sig)
+                return
+        raise ProcessLookupError(3, 'No such process')
+
+    def kill(self, pid, sig):
+        # one process, not its group
+        if self.sim is None:
+            return os.kill(pid, sig)
+        self.sim.baton.yield_point('kill')
         for p in self.sim.procs:
             if p.pid == pid:
                 if getattr(p, 'reaped', False):
@@ -292,7 +314,11 @@ class FakeLauncher(object):
         # is gone: killpg raises ProcessLookupError
         self.cancelled.append(task['uid'])
         self._log = boot.LOG
-        lm_base.LaunchMethod.cancel_task(self, task, pid)
+        if (self.sim.tasks.get(task['uid']) or {}).get('srun'):
+            # the one launch method which overrides the kill routine (SIGINT twice, then SIGKILL)
+            lm_srun.Srun.cancel_task(self, task, pid)
+        else:
+            lm_base.LaunchMethod.cancel_task(self, task, pid)
 
 
 class FakeRM(object):
@@ -332,6 +358,8 @@ enoop.mt     = _MT()
 enoop.time   = _Time()
 lm_base.os   = _KillOS()      # LaunchMethod.cancel_task: killpg on the fake process table
 lm_base.time = _KillTime()
+lm_srun.os   = lm_base.os
+lm_srun.time = lm_base.time
 
 
 # ------------------------------------------------------------------------------
@@ -645,6 +673,7 @@ class ExecSim(object):
         p = live[k % len(live)]
         p.returncode = self.tasks[p.uid].get('exit', 0) if code is None else code
         p.exit_step = self.steps
+        p.child_alive = False                         # the task ran to its end: no process is left
 
     def tick(self, dt):
         self.baton.now += max(0.0, float(dt))
@@ -740,6 +769,7 @@ class ExecSim(object):
                         if p.returncode is None and self.may_exit(p):
                             p.returncode = self.tasks[p.uid].get('exit', 0)
                             p.exit_step = self.steps
+                            p.child_alive = False
                     exited = True
                     same = 0
                     continue
@@ -854,6 +884,12 @@ class ExecSim(object):
                     self.bad('C07', 'failed_without_reason', uid)
                 if not spec.get('fault'):
                     self.bad('C07', 'failed_without_fault', '%s: %s' % (uid, t.get('exception')))
+        # "its process is killed": no member of a killed task's process group is left running
+        for p in self.procs:
+            if p.killed and p.child_alive:
+                self.bad('C08', 'process_of_killed_task_survives',
+                         '%s: the launch process was killed, a process of its group still runs (%s kill '
+                         'routine)' % (p.uid, 'Srun' if self.tasks[p.uid].get('srun') else 'default'))
         # a run-time / start-up limit is enforced
         for uid, over in self.overdue:
             self.bad('C07', 'left_behind:limit_passed_and_still_running',
